@@ -284,7 +284,8 @@ def concat_specs(tier):
 def evaluate_specs(tier):
     top = 3 if tier == "quick" else 4
     out = []
-    big = [[11, 2], [10, 1, 12]] + ([] if tier == "quick" else [[12, 11, 10]])
+    # (the evaluation screen has 2 x 16 = 32 experiments: [13, 13, 6] and [10, 11, 11] make the prediction matrix square)
+    big = [[11, 2], [10, 1, 12], [13, 13, 6], [10, 11, 11]] + ([] if tier == "quick" else [[12, 11, 10]])
     for typ in (SDC, INT):
         layouts = []
         for k in (1, 2, 3):
